@@ -1764,48 +1764,41 @@ func (e *CoreExtension) filterKeys(value interface{}, args ...interface{}) (inte
 }
 
 func (e *CoreExtension) filterMerge(value interface{}, args ...interface{}) (interface{}, error) {
-	// Handle merging arrays/slices
+	// The result is always a new []interface{} or map[string]interface{}: the
+	// operands may have different element types ([]string merged with [1], a
+	// map[string]int merged with a hash literal), which a slice or map of the
+	// first operand's type cannot hold
 	rv := reflect.ValueOf(value)
+
+	// Handle merging arrays/slices
 	if rv.Kind() == reflect.Slice || rv.Kind() == reflect.Array {
-		result := reflect.MakeSlice(rv.Type(), rv.Len(), rv.Len())
+		result := make([]interface{}, 0, rv.Len())
 
 		// Copy original values
 		for i := 0; i < rv.Len(); i++ {
-			result.Index(i).Set(rv.Index(i))
+			result = append(result, rv.Index(i).Interface())
 		}
 
 		// Add values from the arguments
 		for _, arg := range args {
 			argRv := reflect.ValueOf(arg)
 			if argRv.Kind() == reflect.Slice || argRv.Kind() == reflect.Array {
-				// Create a new slice with expanded capacity
-				newResult := reflect.MakeSlice(rv.Type(), result.Len()+argRv.Len(), result.Len()+argRv.Len())
-
-				// Copy existing values
-				for i := 0; i < result.Len(); i++ {
-					newResult.Index(i).Set(result.Index(i))
-				}
-
-				// Append the new values
 				for i := 0; i < argRv.Len(); i++ {
-					newResult.Index(result.Len() + i).Set(argRv.Index(i))
+					result = append(result, argRv.Index(i).Interface())
 				}
-
-				result = newResult
 			}
 		}
 
-		return result.Interface(), nil
+		return result, nil
 	}
 
 	// Handle merging maps
 	if rv.Kind() == reflect.Map {
-		// Create a new map with the same key and value types
-		resultMap := reflect.MakeMap(rv.Type())
+		result := make(map[string]interface{}, rv.Len())
 
 		// Copy original values
 		for _, key := range rv.MapKeys() {
-			resultMap.SetMapIndex(key, rv.MapIndex(key))
+			result[toString(key.Interface())] = rv.MapIndex(key).Interface()
 		}
 
 		// Merge values from the arguments
@@ -1813,12 +1806,12 @@ func (e *CoreExtension) filterMerge(value interface{}, args ...interface{}) (int
 			argRv := reflect.ValueOf(arg)
 			if argRv.Kind() == reflect.Map {
 				for _, key := range argRv.MapKeys() {
-					resultMap.SetMapIndex(key, argRv.MapIndex(key))
+					result[toString(key.Interface())] = argRv.MapIndex(key).Interface()
 				}
 			}
 		}
 
-		return resultMap.Interface(), nil
+		return result, nil
 	}
 
 	return value, nil
